@@ -296,6 +296,35 @@ def pit_case(col, seed):
     col.add(None if bad is None else {"sig": "native::coherence::pit_node", "what": bad, "input": {"model": "u = PIT(y) ~ Beta(a, 3), y ~ N(mu, 1)", "seed": seed}})
 
 
+def reported_code_case(col):
+    """a kernel whose transitions MOVE and report a non-zero error code (a diagnostic: NUTS at its maximum tree depth, a user kernel that uses codes as warnings):
+    the next kernel starts from the state that kernel left, and the sequence returns the last kernel's state - whatever the codes"""
+    from rtc.fixtures import RecordingKernel
+    model = gs.DictInterface(lambda s_: 0.0)
+    k1 = RecordingKernel(["a"], codes=[2, 0, 1])          # a += 1 per transition, codes 2, 0, 1, 2, ...
+    k2 = gs.GibbsKernel(["b"], lambda key, st: {"b": st["a"] * 10.0})  # reads what its predecessor left
+    for i, k in enumerate((k1, k2)):
+        k.set_model(model)
+        k.identifier = f"k{i}"
+    seq = KernelSequence([k1, k2])
+    key = jax.random.PRNGKey(0)
+    ms = {"a": jnp.float32(0.0), "b": jnp.float32(0.0)}
+    kstates = seq.init_states(key, ms)
+    bad = None
+    for jit in (False, True):
+        ep = EpochConfig(EpochType.POSTERIOR, 3, 1, None).to_state(1, 0)
+        st, ks = ms, kstates
+        trans = jax.jit(seq.transition) if jit else seq.transition
+        for it in range(3):
+            out = trans(key, ks, st, ep)
+            st, ks = out.model_state, out.kernel_states
+            a, b = float(st["a"]), float(st["b"])
+            if a != it + 1 or b != 10.0 * (it + 1):
+                bad = bad or f"{'jit' if jit else 'eager'}, iteration {it} (first kernel reports code {int(out.infos['k0'].error_code)}): the sequence returns a={a}, b={b}; the kernels composed by hand give a={it + 1}, b={10.0 * (it + 1)}"
+            ep.advance_time(1)
+    col.add(None if bad is None else {"sig": "native::threading::reported_error_code", "what": bad, "input": {"kernels": ["moving kernel reporting codes 2, 0, 1", "Gibbs b = 10 a"]}})
+
+
 def order_case(col, via_engine):
     """two deterministic Gibbs kernels on disjoint blocks whose composition is order-sensitive (a <- b + 1, then b <- 2a + 1);
     identifiers chosen so that alphabetical order differs from the configured order"""
@@ -343,6 +372,10 @@ def bounded(tier, seed):
     col = util.Collector()
     from rtc.c01 import CORE_RULE, core_native
     core_native(col, seed)
+    try:
+        reported_code_case(col)
+    except Exception as e:
+        col.add({"sig": f"native::threading::exception::{type(e).__name__}", "what": str(e)[:200], "input": {"scenario": "kernel reporting non-zero codes"}})
     for via_engine in (False, True):
         try:
             order_case(col, via_engine)
@@ -362,6 +395,13 @@ def bounded(tier, seed):
         col.add({**sub.violations[0], "sig": "native::coherence::leftover_of_earlier_call"} if sub.violations else None)
     except Exception as e:
         col.add({"sig": f"native::coherence::exception::{type(e).__name__}", "what": str(e)[:200], "input": {"scenario": "two update_state calls on one state object"}})
+    try:  # the stored log-probability counts every distribution node, also one that belongs to no variable (a soft constraint)
+        from rtc.c02 import bare_dist_case
+        sub = util.Collector()
+        bare_dist_case(sub, np.random.default_rng(seed + 7))
+        col.add({**sub.violations[0], "sig": "native::coherence::distribution_node_without_variable"} if sub.violations else None)
+    except Exception as e:
+        col.add({"sig": f"native::coherence::exception::{type(e).__name__}", "what": str(e)[:200], "input": {"scenario": "distribution node without a variable"}})
     try:  # built-in Gibbs kernels start from the state they are handed (hyper-parameters changed after the kernel was created)
         from rtc.c13 import tau2_case
         sub = util.Collector()
